@@ -2328,6 +2328,8 @@ class Norm:
             args = [self._t(a) for a in e["args"]]
             if name in _TO_STRING and len(args) == 1 and _is_string_conv(e, e["args"][0]):
                 return args[0]       # &str / String -> String, however it is spelled, is the same text
+            if name == "FromIterator::from_iter" and len(args) == 1:
+                return ("call", "Iterator::collect", args)          # T::from_iter(it)  ==  it.collect::<T>()
             if name == "__private::must_use" and len(args) == 1:
                 return args[0]
             if name in TRANSPARENT and len(args) == 1:
